@@ -1,16 +1,21 @@
 #!/bin/bash
-# tools/run_seeded.sh [ID ...]: applies each seeded change to /repo, runs the check of its property, reverts.
-# Prints one line per change: "<seed> <property> exit=<n> <first VIOLATION line or ->"
+# tools/run_seeded.sh [ID ...]: applies each seeded change to a scratch worktree of /repo (HEAD), runs the check of its
+# property against that worktree (--repo), reverts. Prints one line per change:
+#   "<seed> <property> exit=<n> violations=<n> replay-confirmed=<n> :: <first VIOLATION line or ->"
+# The worktree lives in /tmp/wt/seed-$$ and is removed at the end; /repo itself is never touched.
 cd /verif
 sel="$@"; [ -z "$sel" ] && sel=$(ls seeded | grep -E '^C[0-9]+-[0-9]+$')
+wt=/tmp/wt/seed-$$
+mkdir -p /tmp/wt
+git -C /repo worktree add -q --detach $wt HEAD || exit 2
+trap 'git -C /repo worktree remove --force '$wt' 2>/dev/null; git -C /repo worktree prune' EXIT
 for s in $sel; do
   for d in seeded/$s*; do
     [ -f "$d/patch.diff" ] || continue
     name=$(basename $d); prop=${name%%-*}
-    if ! git -C /repo diff --quiet; then echo "/repo is dirty, refusing"; exit 2; fi
-    git -C /repo apply "$PWD/$d/patch.diff" || { echo "$name: patch does not apply"; continue; }
-    out=$(./check $prop --no-evidence 2>&1); code=$?
-    git -C /repo checkout -- .
+    git -C $wt apply "$PWD/$d/patch.diff" || { echo "$name: patch does not apply"; continue; }
+    out=$(./check $prop --no-evidence --repo $wt 2>&1); code=$?
+    git -C $wt checkout -q -- .
     viol=$(echo "$out" | grep -m1 -E '^(VIOLATION|CHECK-ERROR)' | sed -E 's#replay=/verif/replays/##' | cut -c1-220)
     n=$(echo "$out" | grep -c '^VIOLATION')
     conf=$(echo "$out" | grep '^VIOLATION' | grep -vc 'no-failing-input-found')
